@@ -50,11 +50,107 @@ def num_const(x):
     return Fraction(x)
 
 
+def subtype_of(tmap, t, anc):
+    while t is not None:
+        if t == anc:
+            return True
+        t = tmap.get(t)
+    return False
+
+
+def const_in_type(t, v, world):
+    """Is the constant descriptor v a value of the type descriptor t?"""
+    try:
+        k = t[0]
+        if k == "bool":
+            return v[0] == "bool"
+        if k in ("int", "real"):
+            if v[0] not in ("int", "real"):
+                return False
+            c = Fraction(v[1])
+            if k == "int" and c.denominator != 1:
+                return False
+            if t[1] is not None and c < Fraction(t[1]):
+                return False
+            if t[2] is not None and c > Fraction(t[2]):
+                return False
+            return True
+        if v[0] != "o":
+            return False
+        ot = next((ot for o, ot in world.get("objects", []) if o == v[1]), None)
+        return ot is not None and subtype_of(dict(world.get("types", [])), ot, t[1])
+    except (IndexError, TypeError, ValueError, ZeroDivisionError):
+        return False
+
+
+def validate_world(world, strict=False):
+    """A world descriptor must be consistent with itself (the minimiser shrinks numbers inside type
+    bounds and tables; a script whose interpreted function returns values outside its declared
+    type, or whose initial values lie outside the fluent's type, describes nothing)."""
+    ftypes = {}
+    for fd in world.get("fluents", []):
+        ftypes[fd["name"]] = fd["type"]
+        if fd.get("default") is not None and not const_in_type(fd["type"], fd["default"], world):
+            raise BuildError(f"default of {fd['name']} outside its type")
+    for iv in world.get("init", []):
+        fe, v = iv
+        if fe[1] in ftypes and not const_in_type(ftypes[fe[1]], v, world):
+            raise BuildError(f"initial value of {fe[1]} outside its type")
+    for d in world.get("ifuns", []):
+        if not const_in_type(d["ret"], d["default"], world):
+            raise BuildError(f"default of {d['name']} outside its return type")
+        for key, v in d.get("table", []):
+            if len(key) != len(d["params"]) or not const_in_type(d["ret"], v, world):
+                raise BuildError(f"table of {d['name']} inconsistent with its signature")
+            for kk, pt in zip(key, d["params"]):
+                kv = ["o", kk] if pt[0] == "user" else (["bool", kk] if isinstance(kk, bool) else
+                                                       ["int", kk] if isinstance(kk, int) else ["real", str(kk)])
+                if strict and not const_in_type(pt, kv, world):
+                    raise BuildError(f"table key of {d['name']} outside the parameter type")
+
+
+    # interpreted functions are only applied inside their declared domain
+    sigs = {d["name"]: d["params"] for d in world.get("ifuns", [])}
+
+    def within(t, pt):
+        if t[0] != pt[0] and not (t[0] == "int" and pt[0] == "real"):
+            return False
+        if t[0] in ("int", "real"):
+            lo, hi = pt[1], pt[2]
+            if lo is not None and (t[1] is None or Fraction(t[1]) < Fraction(lo)):
+                return False
+            if hi is not None and (t[2] is None or Fraction(t[2]) > Fraction(hi)):
+                return False
+        return True
+
+    def walk(e):
+        if isinstance(e, dict):
+            for x in e.values():
+                walk(x)
+            return
+        if not isinstance(e, list):
+            return
+        if e and e[0] == "if" and len(e) > 1 and e[1] in sigs:
+            for a, pt in zip(e[2:], sigs[e[1]]):
+                if isinstance(a, list) and a and a[0] == "f" and a[1] in ftypes and not within(ftypes[a[1]], pt):
+                    raise BuildError(f"{e[1]} applied to {a[1]} whose type exceeds the parameter type")
+                if isinstance(a, list) and a and a[0] in ("int", "real", "bool") and not const_in_type(pt, a, world):
+                    raise BuildError(f"{e[1]} applied to a constant outside the parameter type")
+        for x in e:
+            walk(x)
+
+    if sigs and strict:
+        walk(world.get("actions", []))
+        walk(world.get("goals", []))
+        walk(world.get("invariants", []))
+
+
 class World:
     """Library objects of one world descriptor inside one Environment."""
 
-    def __init__(self, desc, env=None, callbacks=None):
+    def __init__(self, desc, env=None, callbacks=None, strict=False):
         self.desc = desc
+        validate_world(desc, strict)
         self.env = env if env is not None else Environment()
         self.tm = self.env.type_manager
         self.em = self.env.expression_manager
